@@ -142,15 +142,39 @@ CORPUS = [
 ]
 
 
-def corpus_files():
+# Open known findings (KNOWN_FINDINGS.txt `open:` lines; run first).  The passed lambda is not written directly as the
+# operator's argument (second branch of a conditional expression, argument of a pass-through helper), so find_identifier
+# files it under another NAME (`else`, `keep`); a neighbouring lambda of the same logical line that IS filed under the
+# method name and has the same parameter names is then the only candidate, and it is recorded without raising.
+# (what, text, spec, marker of the passed callable whose mis-recovery is the finding)
+KNOWN_OPEN = [
+    ("open W1: conditional expression as the argument, the second branch is passed, same parameter names",
+     "flag = False\nr = ds.Select((«2301»lambda x: x.v + 2301) if flag else («2302»lambda x: x.v + 2302))\n",
+     [(2301, "lambda", "Select", ["x"], False, False), (2302, "lambda", "Select", ["x"], True, False)], 2302),
+    ("open W2: lambda wrapped in a pass-through helper next to a same-signature call on the line",
+     "def keep(f): return f\nr = ds.Select(«2311»lambda x: x.v + 2311).Select(keep(«2312»lambda x: x.v * 10 + 2312))\n",
+     [(2311, "lambda", "Select", ["x"], True, False), (2312, "lambda", "Select", ["x"], True, False)], 2312),
+]
+
+
+def open_key(text: str, marker: int, op: str) -> str:
+    """stable key of an open finding: digest of the witness statement itself (independent of the prelude)"""
+    return core.digest({"p": ID, "open": text, "marker": marker, "op": op})
+
+
+def tagged_files(entries):
     out = []
-    for what, text, spec in CORPUS:
+    for what, text, spec in entries:
         cases = {m: fc.Case(m, k, op, args, passed, sup, "corpus") for m, k, op, args, passed, sup in spec}
         import re
         tagged = re.sub("«(\\d+)»", lambda mo: fc.TAG_A + mo.group(1) + fc.TAG_B, text)
         src = fc.strip_tags(fc.PRELUDE + tagged, cases)
         out.append((src, cases, what))
     return out
+
+
+def corpus_files():
+    return tagged_files(CORPUS)
 
 
 # ------------------------------------------------------------------------------------------ one file -> items
@@ -162,6 +186,7 @@ class Item:
         self.truth = fc.primary(fc.code_markers(f), cases)
         self.case: Optional[fc.Case] = cases.get(self.truth) if self.truth is not None else None
         self.probe: Optional[fc.Probe] = None
+        self.okey: Optional[str] = None        # key of the open known finding this item is the witness of
 
     def witness(self):
         return {"source": self.src, "marker": self.truth, "op": self.op, "mode": self.mode,
@@ -169,6 +194,8 @@ class Item:
                           for m, c in self.cases.items()}}
 
     def key(self):
+        if self.okey is not None:
+            return self.okey
         return core.digest({"p": ID, "source": self.src, "marker": self.truth, "op": self.op})
 
 
@@ -452,11 +479,16 @@ def judge(ctx, it: Item):
                          dict(it.witness(), correspondence="safety-theorem"))
 
 
-def run_files(ctx, files):
+def run_files(ctx, files, okeys=None):
     items: List[Item] = []
-    for src, cases, what in files:
+    for n, (src, cases, what) in enumerate(files):
         modes = ("fake", "real") if what != "generated-fake" else ("fake",)
-        items += items_of(src, cases, modes)
+        its = items_of(src, cases, modes)
+        if okeys is not None:
+            for it in its:
+                if it.truth == okeys[n][0]:
+                    it.okey = okeys[n][1]
+        items += its
     model_answers(ctx, items)
     for it in items:
         judge(ctx, it)
@@ -472,6 +504,10 @@ def run(ctx):
     import logging
     logging.disable(logging.CRITICAL)
     try:
+        of = tagged_files([e[:3] for e in KNOWN_OPEN])
+        oitems = run_files(ctx, of, [(m, open_key(text, m, "Select")) for _, text, _, m in KNOWN_OPEN])
+        ctx.notes.append("open known findings: %d witnesses, %d passed callables; keys %s"
+                         % (len(of), len(oitems), ", ".join(open_key(t, m, "Select") for _, t, _, m in KNOWN_OPEN)))
         cf = corpus_files()
         items = run_files(ctx, cf)
         ctx.notes.append("corpus: %d files, %d passed callables" % (len(cf), len(items)))
